@@ -37,6 +37,7 @@ type c11Decl struct {
 	goName                    string // declared name inside the cypher package ("" for unnamed types)
 	fields                    []c11Field
 	copyCase, isNode, nilSafe bool
+	helpers                   []int // indices into c11ctx.helpers: the functions a Copy of this type passes through
 }
 
 type c11Cond struct {
@@ -171,6 +172,7 @@ type c11ctx struct {
 	decls     []*c11Decl
 	idx       map[string]int
 	notes     []string
+	helpers   []c11Helper
 }
 
 func (x *c11ctx) note(format string, a ...any) {
@@ -1806,6 +1808,7 @@ func c11Facts(repo string, w *strings.Builder) error {
 		return err
 	}
 	x.otherModes()
+	x.buildHelpers(repo)
 
 	// frozen: no indexed write and no append through a selector of that field name anywhere in the module
 	sliceNames := map[string]bool{}
@@ -1890,8 +1893,8 @@ func c11Facts(repo string, w *strings.Builder) error {
 	fmt.Fprintf(w, "def types : List TypeDecl := [\n")
 	for i, d := range x.decls {
 		fmt.Fprintf(w, "  -- %d %s\n", i, d.name)
-		fmt.Fprintf(w, "  { name := %s, shape := .%s, elemMode := .%s, copyCase := %v, isNode := %v, nilSafe := %v,\n    fields := [",
-			leanStr(d.name), d.shape, d.elemMode, d.copyCase, d.isNode, d.nilSafe)
+		fmt.Fprintf(w, "  { name := %s, shape := .%s, elemMode := .%s, copyCase := %v, isNode := %v, nilSafe := %v, helpers := %s,\n    fields := [",
+			leanStr(d.name), d.shape, d.elemMode, d.copyCase, d.isNode, d.nilSafe, leanNatList(d.helpers))
 		for j, f := range d.fields {
 			if j > 0 {
 				fmt.Fprintf(w, ",")
@@ -1912,7 +1915,20 @@ func c11Facts(repo string, w *strings.Builder) error {
 	tab("semantic", semantic)
 	fmt.Fprintf(w, "def scalarLeaves : List String := %s\n", leanStrList(scalarLeaves))
 	fmt.Fprintf(w, "def mapItemTy : Nat := %d\n", mapItem)
-	fmt.Fprintf(w, "def tables : Tables := { types := types, structural := structural, semantic := semantic, scalarLeaves := scalarLeaves, mapItemTy := mapItemTy }\n\n")
+	fmt.Fprintf(w, "/-- every function a deep copy passes through (the Copy dispatcher, copy() methods, copySlice, graph.Kinds.Copy): does every\n    return hand back a fresh object / nil, and does some return hand back the argument itself -/\n")
+	fmt.Fprintf(w, "def helpers : List Helper := [\n")
+	for i, h := range x.helpers {
+		fmt.Fprintf(w, "  { name := %s, allocates := %v, returnsArg := %v }%s  -- %d\n", leanStr(h.name), h.allocates, h.returnsArg, map[bool]string{true: ",", false: ""}[i < len(x.helpers)-1], i)
+	}
+	fmt.Fprintf(w, "]\n")
+	var hra, hal []string
+	for _, h := range x.helpers {
+		hra = append(hra, fmt.Sprintf("(%s, %v)", leanStr(h.name), h.returnsArg))
+		hal = append(hal, fmt.Sprintf("(%s, %v)", leanStr(h.name), h.allocates))
+	}
+	fmt.Fprintf(w, "def helperReturnsArgument : List (String × Bool) := [%s]\n", strings.Join(hra, ", "))
+	fmt.Fprintf(w, "def helperAllocates : List (String × Bool) := [%s]\n", strings.Join(hal, ", "))
+	fmt.Fprintf(w, "def tables : Tables := { types := types, structural := structural, semantic := semantic, scalarLeaves := scalarLeaves, mapItemTy := mapItemTy, helpers := helpers }\n\n")
 	fmt.Fprintf(w, "/-- (field name, file:line) of every indexed write `x.f[i] = …`, `x.f[i]++`, `copy(x.f, …)` found in the module -/\n")
 	fmt.Fprintf(w, "def indexedWrites : List (String × String) := %s\n", c11LeanPairs(idxW))
 	fmt.Fprintf(w, "/-- (field name, file:line) of every `x.f = append(x.f, …)` found in the module -/\n")
